@@ -281,6 +281,9 @@ func c06Run(c *Ctx, specs []RunSpec, fixedBudgets []int, defBudget int) {
 			if needed >= 2 {
 				budgets = append(budgets, needed-1)
 			}
+			if i < 3 {
+				budgets = append([]int{10}, budgets...) // the reproduced inputs under the budget they were reported with
+			}
 			if i%3 == 0 {
 				budgets = append(budgets, 1+c.Rng.Intn(12))
 			}
